@@ -482,6 +482,8 @@ def run_case(concepts, case, spec):
                 ('csv', {'dialect': 'excel-tab'}, {'dialect': 'excel-tab'}),
                 ('csv', {'dialect': 'unix', 'bools_as_int': rng.random() < .5}, {'dialect': 'unix'}),
                 ('csv', {'object_header': 'name'}, {}),
+                ('csv', {'object_header': properties[0]}, {}),
+                ('csv', {'object_header': objects[-1], 'bools_as_int': True}, {}),
                 ('python-literal', {}, {})]
     for fmt, dkw, lkw in variants:
         rep = _representable(fmt, objects, properties)
